@@ -6,6 +6,7 @@ package main
 
 import (
 	"golang.org/x/tools/go/ssa"
+	"strings"
 )
 
 type lockKind int
@@ -19,6 +20,44 @@ const (
 
 // lockState per instruction: 0 = not held, 1 = read lock held, 2 = write lock held
 func lockStates(fn *ssa.Function, classify func(ssa.CallInstruction) lockKind) map[ssa.Instruction]int {
+	return lockStatesFrom(fn, classify, 0)
+}
+
+// lockStatesR: as lockStates, but a function that is only reached by plain static calls (a helper extracted from a
+// critical section) starts in the weakest lock state of its call sites instead of "not held"
+func (c *Ctx) lockStatesR(fn *ssa.Function, classify func(ssa.CallInstruction) lockKind) map[ssa.Instruction]int {
+	return lockStatesFrom(fn, classify, c.lockEntry(fn, classify, 0))
+}
+
+func (c *Ctx) lockEntry(fn *ssa.Function, classify func(ssa.CallInstruction) lockKind, depth int) int {
+	if depth > 3 || fn.Parent() != nil {
+		return 0
+	}
+	// every way into fn is a plain static call
+	if !c.P.onlyCalledFrom(fn, c.P.allFuncs) {
+		return 0
+	}
+	entry := 3
+	for _, s := range c.P.staticSites[fn] {
+		if _, isCall := s.(*ssa.Call); !isCall {
+			return 0
+		}
+		p := s.Parent()
+		if strings.Contains(p.Synthetic, "wrapper") {
+			continue
+		}
+		st := lockStatesFrom(p, classify, c.lockEntry(p, classify, depth+1))[s]
+		if st < entry {
+			entry = st
+		}
+	}
+	if entry == 3 {
+		return 0
+	}
+	return entry
+}
+
+func lockStatesFrom(fn *ssa.Function, classify func(ssa.CallInstruction) lockKind, entry int) map[ssa.Instruction]int {
 	in := map[*ssa.BasicBlock]int{}
 	out := map[*ssa.BasicBlock]int{}
 	const top = 3 // unvisited
@@ -67,7 +106,7 @@ func lockStates(fn *ssa.Function, classify func(ssa.CallInstruction) lockKind) m
 	if len(fn.Blocks) == 0 {
 		return states
 	}
-	in[fn.Blocks[0]] = 0
+	in[fn.Blocks[0]] = entry
 	changed := true
 	for changed {
 		changed = false
